@@ -453,7 +453,7 @@ def _app(bufsize, maxram, mkfile='default'):
 def run_real(case):
     body = serialize(case)
     beyond = bytes.fromhex(case.get('beyond_hex', ''))
-    fp = FragStream(body + beyond, case.get('frag', []))
+    fp = FragStream(body + beyond, case.get('frag', []), faults=case.get('faults'))
     ctype = 'multipart/%s; boundary=%s' % (case.get('subtype', 'form-data'),
                                            ('"%s"' % case['boundary']) if case.get('quote_boundary')
                                            else case['boundary'])
@@ -483,6 +483,7 @@ def run_real(case):
     return {'status': int(st[0].split()[0]) if st else None, 'params': _J.get('params'),
             'parts': _J.get('parts'), 'is_list': _J.get('is_list'), 'storage': _J.get('storage'),
             'order': [[k, len(v)] for k, v in (_J.get('params') or {}).items()], 'allparts': allparts,
+            'nfaults': fp.nfaults,
             'off': fp.pos, 'req_end': fp.req_end, 'len': len(body)}
 
 
@@ -579,7 +580,10 @@ def oracle(case, obs):
         sig = 'preamble_marker'     # outside the statement (preamble text must not contain a marker line)
     elif any(p.get('nested') for p in case['parts']):
         sig = 'F28:part_content_type_processor'
-    if is_loose(case):
+    if obs.get('nfaults'):
+        pass                        # the connection failed under the parser (timeout / reset): the request is lost,
+                                    # what remains of the statement is the bound on the connection below
+    elif is_loose(case):
         pass                        # judged by the comparison with the model (and the bound below)
     elif obs['status'] != 200:
         bad.append(('status %s for a well-formed multipart body' % obs['status'], sig or 'status'))
@@ -854,6 +858,9 @@ def gen_case(rng, big=False):
             'quote_boundary': rng.random() < 0.3 or ' ' in boundary or ',' in boundary}
     if rng.random() < 0.15:
         case['mkfile'] = 'custom'   # the part class overrides make_file()
+    if rng.random() < 0.04:
+        # transient failures of the connection under the parser (the k-th next read of the raw stream raises)
+        case['faults'] = [rng.choice([0, 1, 2, 3, 5, 9, 20]) for _ in range(rng.choice([1, 2]))]
     if rng.random() < 0.03 and n < 5000:
         case['cut'] = rng.choice([1, 2, 3, 5, 9, rng.randint(1, max(1, n // 2))])
     if rng.random() < 0.1:
@@ -1027,7 +1034,8 @@ def enum_small():
 
 # ----------------------------------------------------------------------------------------------
 def case_key(case):
-    return json.dumps([case['boundary'], serialize(case).hex(), case.get('bufsize'), len(case.get('frag', [])),
+    return json.dumps([case['boundary'], serialize(case).hex(), case.get('bufsize'), case.get('faults'),
+                       len(case.get('frag', [])),
                        case.get('frag', [])[:6], case.get('maxram'), case.get('subtype'), bool(case.get('chunked'))])
 
 
@@ -1076,6 +1084,10 @@ def check_cases(ctx, cases, compare=True, stats=True):
         fails = oracle(case, obs)
         for what, sig in fails:
             ctx.oracle_fail(case, what, sig)
+        if stats and case.get('faults'):
+            ctx.count('connection_faults_hit:%d' % min(obs.get('nfaults', 0), 3))
+        if model is not None and obs.get('nfaults'):
+            continue                # no such event in the parser model
         if model is not None:
             ctx.compared()
             m = parse_model(model[i], case)
